@@ -161,6 +161,8 @@ func (s *ncServer) handle(m string) {
 			s.hangUp()
 		case mode == "warn":
 			s.reply(id, s.rpcError("warning", "deprecated")+"<ok/>")
+		case mode == "warn+err":
+			s.reply(id, s.rpcError("warning", "deprecated")+s.rpcError("error", "bad value"))
 		case err != nil:
 			s.reply(id, s.rpcError("error", "bad value"))
 		default:
